@@ -105,6 +105,28 @@ fn main() {
         let (ok, detail) = rerender_after_failures(&env, "page", "c", 3);
         out.push(serde_json::json!({"scenario": "block_call_fails", "function": "call_block", "ok": ok, "detail": detail}));
     }
+    // --- name resolution inside a macro: the frame's own assignments shadow the enclosed variable
+    {
+        FAIL.store(false, Ordering::SeqCst);
+        let env = env_with(&[]);
+        for (n, src, want) in [
+            ("macro_local_shadows_closure", "{% set v = 'outer' %}{% macro m() %}{% set v = 'inner' %}[{{ v }}]{% endmacro %}{{ m() }}|{{ v }}", "[inner]|outer"),
+            ("loop_variable_shadows_closure", "{% set x = 'outer' %}{% macro m() %}{% for x in [1, 2] %}{{ x }}{% endfor %}{{ x }}{% endmacro %}{{ m() }}", "12outer"),
+            ("macro_argument_shadows_closure", "{% set a = 'outer' %}{% macro m(a) %}{{ a }}{% endmacro %}{{ m('arg') }}", "arg"),
+            // the colliding name gets into the closure when it is assigned after a macro with a free variable was declared
+            ("argument_shadows_variable_assigned_after_declaration",
+             "{% set sep = '/' %}{% macro m(x) %}[{{ x }}{{ sep }}]{% endmacro %}{% set x = 'outer' %}{{ m('arg') }}{{ m(x='kw') }}|{{ x }}", "[arg/][kw/]|outer"),
+            // ... or when it is a free variable of a sibling macro
+            ("argument_shadows_variable_enclosed_by_sibling",
+             "{% set x = 'outer' %}{% macro show() %}<{{ x }}>{% endmacro %}{% macro m(x) %}[{{ x }}]{% endmacro %}{{ show() }}{{ m('arg') }}", "<outer>[arg]"),
+            ("set_in_macro_shadows_enclosed_variable",
+             "{% set sep = '/' %}{% macro m() %}{% set v = 'inner' %}[{{ v }}{{ sep }}]{% endmacro %}{% set v = 'outer' %}{{ m() }}|{{ v }}", "[inner/]|outer"),
+        ] {
+            let got = env.render_str(src, ()).map_err(|e| e.to_string());
+            out.push(serde_json::json!({"scenario": n, "function": "context_load", "ok": got == Ok(want.to_string()),
+                "detail": format!("rendered {:?}, expected {:?}", got, want)}));
+        }
+    }
     for o in out {
         println!("{}", o);
     }
